@@ -306,6 +306,8 @@ def to_trace(log, var_ids, missing_name):
     events, calls = [], []
     cur = None
     for e in log:
+        if e["e"] == "raw" and cur is None:
+            continue
         if e["e"] == "get":
             cur = {"var": e["var"], "file": e["file"], "idx": e["idx"], "shape": e["shape"],
                    "open": 0, "close": 0}
@@ -315,6 +317,8 @@ def to_trace(log, var_ids, missing_name):
             cur["open"] += 1
         elif e["e"] == "close":
             cur["close"] += 1
+        elif e["e"] == "raw":
+            cur["raw"] = cur.get("raw", 0) + e["size"]
         else:
             f = 1 if (cur["file"] or "").endswith(missing_name) else 0
             v = var_ids.get(cur["var"], 0) if f == 0 else 0
@@ -447,11 +451,51 @@ def read_specs(chk):
         specs.append({"kind": "example", "n": 3, "compress": m, "label": "example3-" + m})
     specs.append({"kind": "example", "n": 4, "compress": "indexed_contiguous", "label": "example4-indexed_contiguous"})
     specs.append({"kind": "example", "n": 0, "group": ["forecast", "model"], "label": "example0-grouped"})
-    reps = 6 if T else 2
+    reps = 10 if T else 2
     for _ in range(reps):
         specs += [hand_plain(rng), hand_plain(rng, grouped=True), hand_strings(rng), hand_dsg(rng, False),
                   hand_dsg(rng, True), hand_geometry(rng, False), hand_geometry(rng, True)]
     return specs
+
+
+def field_cases(rng, fspecs, nper):
+    fcases = []
+    for s in fspecs:
+        for be in BACKENDS:
+            for _ in range(nper):
+                ops = []
+                for _k in range(rng.randint(3, 10)):
+                    r = rng.random()
+                    i = rng.randint(0, 5)
+                    if r < 0.25:
+                        idx = []
+                        for _a in range(3):
+                            q = rng.random()
+                            if q < 0.5:
+                                idx.append(["slice", rng.choice([None, 0, 1, -2]), rng.choice([None, 2, 3, -1]), rng.choice([None, 1, 2, -1])])
+                            elif q < 0.8:
+                                idx.append(["list", [rng.randint(0, 7) for _z in range(rng.randint(1, 3))]])
+                            else:
+                                idx.append(["slice", None, None, None])
+                        ops.append(["sub", i, idx])
+                    elif r < 0.35:
+                        ops.append(["copy", i])
+                    elif r < 0.45:
+                        ops.append(["tomem", i])
+                    elif r < 0.6:
+                        ops.append(["tomem1", i, rng.randint(0, 20)])
+                    elif r < 0.7:
+                        ops.append(["arr", i])
+                    elif r < 0.85:
+                        ops.append(["arr1", i, rng.randint(0, 20)])
+                    elif r < 0.92:
+                        ops.append(["str", i])
+                    else:
+                        ops.append(["eq", i, rng.randint(0, 5)])
+                ops.append(["arr", 0])
+                be2 = rng.choice(BACKENDS)
+                fcases.append({"spec": s, "backend": be, "backend2": be2, "ops": ops})
+    return fcases
 
 
 # ---------------------------------------------------------------- running workers
@@ -482,6 +526,139 @@ def sig_open(step_has_error):
     return "file-left-open-when-access-raises" if step_has_error else "file-left-open-after-access"
 
 
+def judge_history(chk, c, r, spec, stats):
+    """Property oracle for one history and its Gallina literal.  c: the case, r: the worker's row."""
+    out = {"lit": None, "bad": False, "nsteps": 0, "key": None}
+    c["vars"] = spec["vars"]      # makes the case replayable on its own
+    stats["backends"][str(c["backend"])] = stats["backends"].get(str(c["backend"]), 0) + 1
+    var_ids = {vname(v): k for k, v in enumerate(spec["vars"])}
+    byname = {vname(v): v for v in spec["vars"]}
+    # --- laziness and backend selection of the read that produced the objects
+    if r.get("read_log"):
+        chk.fail("property", "read-fetches-array", f"reading an integer file fetched {r['read_log'][:3]}",
+                 {"input": c, "observed": r["read_log"][:5]})
+    if r.get("read_open"):
+        chk.fail("property", "file-left-open-after-read", f"files open after read: {r['read_open']}", {"input": c})
+    for hc, w in zip(c["heap"], r["start"]):
+        if w != "disk:" + CLS[c["backend"]]:
+            chk.fail("property", "read-array-not-lazy-or-wrong-backend",
+                     f"backend {c['backend']}: data of {hc} is {w} after read, expected disk:{CLS[c['backend']]}",
+                     {"input": c, "observed": r["start"]})
+    # --- oracle heap
+    heap = []
+    for hc in c["heap"]:
+        if "missing" in hc:
+            heap.append(OCell(hc["shape"], [0] * (int(np.prod(hc["shape"])) if hc["shape"] else 1), True, True))
+        else:
+            v = byname[hc["var"]]
+            heap.append(OCell(v["shape"], v["flat"]))
+    observed = []
+    bad_case = False
+    for op, st in zip(c["ops"], r["steps"]):
+        out["nsteps"] += 1
+        stats["ops"][op[0]] = stats["ops"].get(op[0], 0) + 1
+        exp, info = oracle_step(heap, op)
+        got = st["obs"]
+        events, calls = to_trace(st["log"], var_ids, "c12_no_such_file.nc")
+        is_err = "err" in got
+        if is_err:
+            stats["errors"][got["err"]] = stats["errors"].get(got["err"], 0) + 1
+        # (a) no file left open
+        if st["open"] or st.get("open_in_handler"):
+            bad_case = True
+            chk.fail("property", sig_open(is_err), f"{op} left {st['open'] or st.get('open_in_handler')} open",
+                     {"input": c, "op": op, "observed": st["open"]})
+        nopen = sum(1 for e in events if e[0] == "open")
+        nclose = sum(1 for e in events if e[0] == "close")
+        if nopen != nclose:
+            bad_case = True
+            chk.fail("property", sig_open(is_err),
+                     f"{op}: {nopen} open call(s) but {nclose} close call(s) inside the file array's __getitem__",
+                     {"input": c, "op": op, "expected": "every open followed by its close", "observed": st["log"]})
+        # (b) same result as eager numpy access, and as the eager twin Data
+        ok = True
+        if "err" in exp:
+            ok = is_err and (exp["err"] is None or exp["err"] == got["err"])
+        elif "arr" in exp:
+            ok = "arr" in got and got["arr"]["shape"] == exp["arr"]["shape"] and got["arr"]["flat"] == exp["arr"]["flat"] \
+                and (op[0] != "arr" or got["arr"]["dtype"] == "int64")
+        else:
+            ok = got == exp
+        if not ok:
+            bad_case = True
+            chk.fail("property", "lazy-differs-from-eager",
+                     f"{op} on backend {c['backend']}: expected {exp}, got {got}",
+                     {"input": c, "op": op, "expected": exp, "observed": got})
+        if "eager" in st:
+            e2 = st["eager"]
+            same = (("err" in e2 and "err" in got and e2["err"] == got["err"]) or
+                    ({k: v for k, v in e2.items() if k != "msg"} == {k: v for k, v in got.items() if k != "msg"}))
+            if not same:
+                bad_case = True
+                chk.fail("property", "lazy-differs-from-eager",
+                         f"{op}: file-backed Data gave {got}, the same history on in-memory Data gave {e2}",
+                         {"input": c, "op": op, "expected": e2, "observed": got})
+        # (c) fetch only what is asked
+        gets = [x for x in calls]
+        fetched = sum((x.get("rsize") or 0) for x in gets if x.get("ret"))
+        want = info["want"]
+        if not info["disk"] and op[0] != "eq":
+            if gets:
+                bad_case = True
+                chk.fail("property", "in-memory-data-refetched", f"{op}: data already in memory, yet the file was read",
+                         {"input": c, "op": op, "observed": st["log"]})
+        elif isinstance(want, list) and not info["missing"]:
+            size = int(np.prod([len(p) for p in want])) if want else 1
+            poss_ok = len(gets) == 1 and gets[0].get("poss") == want
+            if fetched != size or not poss_ok:
+                bad_case = True
+                chk.fail("property", "fetch-not-what-was-asked",
+                         f"{op}: asked for positions {want} ({size} elements); the file array was asked "
+                         f"{[x.get('poss') for x in gets]} and returned {fetched} elements",
+                         {"input": c, "op": op, "expected": want, "observed": st["log"]})
+            # ... also below the file array: elements actually read from the file variable.
+            # netCDF4 selects orthogonally by itself (exactly the request); h5py takes one list
+            # index per read, so with several list indices the slab of one of them is read.
+            raw = sum(x.get("raw", 0) for x in gets)
+            if len(gets) == 1 and isinstance(gets[0]["idx"], list):
+                laxes = [k for k, i in enumerate(gets[0]["idx"]) if i != "..." and i[0] == "list" and len(i[1]) > 1]
+            else:
+                laxes = []
+            bound = size
+            if CLS[c["backend"]] == "H5netcdfArray" and len(laxes) > 1:
+                dims = gets[0]["shape"]
+                bound = max(int(np.prod([len(p) if (k not in laxes or k == j) else dims[k] for k, p in enumerate(want)]))
+                            for j in laxes)
+            if raw > bound:
+                bad_case = True
+                chk.fail("property", "fetch-more-than-asked",
+                         f"{op}: {size} elements asked for, {raw} elements read from the file variable (allowed: {bound})",
+                         {"input": c, "op": op, "expected": bound, "observed": raw})
+        elif want == "error" and gets and not info["missing"] and op[0] == "sub":
+            # an index error must not have fetched anything
+            if fetched:
+                bad_case = True
+                chk.fail("property", "fetch-not-what-was-asked", f"{op}: raised, but {fetched} elements were fetched first",
+                         {"input": c, "op": op, "observed": st["log"]})
+        observed.append((got, events))
+    out["bad"] = bad_case
+    if any(any(e[0] == "stray" for e in ev) for _, ev in observed):
+        chk.fail("correspondence", "trace-shape", "open/close logged outside a file array __getitem__",
+                 {"correspondence": "C12.Run.check_ops", "input": c})
+        return out
+    # --- literal for the model
+    vars_lit = glist(list(enumerate(spec["vars"])),
+                     lambda kv: f"(0%Z, {gz(kv[0])}, {glist(kv[1]['shape'], gnat)}, {glist(kv[1]['flat'], g_oz)})")
+    heap_lit = glist(c["heap"], lambda hc: (f"(OnDisk 1%Z 0%Z {glist(hc['shape'], gz)})" if "missing" in hc else
+                                             f"(OnDisk 0%Z {gz(var_ids[hc['var']])} {glist(byname[hc['var']]['shape'], gz)})"))
+    obs_lit = glist(observed, lambda oe: f"({g_obs(oe[0])}, {glist(oe[1], g_event)})")
+    out["lit"] = (f"({vars_lit}, {heap_lit}, {gbool(c['backend'] == 'h5netcdf')}, {glist(c['ops'], g_op)}, {obs_lit})")
+    nontriv = any(o[0] in ("sub", "set") and not C03.trivial_idx(o[2]) for o in c["ops"])
+    if nontriv:
+        out["key"] = lib.canon({"f": spec, "h": c["heap"], "o": c["ops"], "b": c["backend"]})
+    return out
+
+
 # ---------------------------------------------------------------- the check
 def run(chk, model_ok):
     rng = chk.rng
@@ -504,7 +681,7 @@ def run(chk, model_ok):
                      {"correspondence": "drive/c12.py " + mode})
 
     # ======================================================== 1. histories over integer files
-    nfiles = 120 if T else 36
+    nfiles = 300 if T else 36
     per_file = 40 if T else 26
     files = [rand_file(rng) for _ in range(nfiles)]
     cases = []
@@ -518,23 +695,49 @@ def run(chk, model_ok):
             heap, ops = rand_history(rng, files[k], rng.randint(3, 10))
             cases.append({"file": k, "backend": rng.choice(BACKENDS), "heap": heap, "ops": ops, "fam": "history"})
     # every worker gets whole files (the worker caches the read of a file per backend)
-    nworkers = 14
+    nworkers = 24 if T else 14
     for i, c in enumerate(cases):
         c["i"] = i
     shards = [[c for c in cases if c["file"] % nworkers == w] for w in range(nworkers)]
     shards = [s for s in shards if s]
-    res = lib.run_workers_parallel("drive/c12.py", [{"mode": "ops", "scratch": scratch, "files": files, "cases": s}
-                                                     for s in shards])
-    rows = [None] * len(cases)
-    crashed = []
-    for s, (rc, out, err) in zip(shards, res):
+    groups = []
+    for s_ in shards:
+        need = sorted(set(c["file"] for c in s_))
+        groups.append(("ops", {"mode": "ops", "scratch": scratch, "files": {str(k): files[k] for k in need},
+                               "cases": s_}, s_))
+
+    # reads: one worker per dataset
+    specs = read_specs(chk)
+    rcases = [{"spec": s_} for s_ in specs]
+    for i, c in enumerate(rcases):
+        c["i"] = i
+        groups.append(("read", {"mode": "read", "scratch": scratch, "cases": [c]}, [c]))
+
+    # histories over whole fields: one worker per dataset (the file is built once)
+    fspecs = [s_ for s_ in specs if s_["kind"] == "example"] + [s_ for s_ in specs if s_["kind"] == "hand"][:(21 if T else 7)]
+    fcases = field_cases(rng, fspecs, 8 if T else 2)
+    for i, c in enumerate(fcases):
+        c["i"] = i
+    for s_ in fspecs:
+        mine = [c for c in fcases if c["spec"] is s_]
+        groups.append(("fieldops", {"mode": "fieldops", "scratch": scratch, "cases": mine}, mine))
+
+    # heavy datasets first; everything is started through one pool
+    weight = {"fieldops": 0, "read": 1, "ops": 2}
+    groups.sort(key=lambda g: (weight[g[0]], -len(json.dumps(g[1]["cases"][0].get("spec", {}).get("label", "")))))
+    res = lib.run_workers_parallel("drive/c12.py", [g[1] for g in groups], jobs=16)
+    rows, rrows, frows = [None] * len(cases), [None] * len(rcases), [None] * len(fcases)
+    target = {"ops": rows, "read": rrows, "fieldops": frows}
+    for (mode, payload, mine), (rc, out, err) in zip(groups, res):
+        got = 0
         for r in out:
             if isinstance(r, dict) and "i" in r:
-                rows[r["i"]] = r
-        if rc != 0 or sum(1 for r in out if isinstance(r, dict) and "i" in r) != len(s):
-            crashed.append((rc, err[-500:]))
-    crash("ops", crashed)
-    mark("histories_impl")
+                target[mode][r["i"]] = r
+                got += 1
+        if rc != 0 or got != len(mine):
+            chk.fail("correspondence", "worker-crash", f"C12 {mode} worker died rc={rc}: {err[-500:]}",
+                     {"correspondence": "drive/c12.py " + mode})
+    mark("implementation_runs")
 
     lits, lit_case, explained = [], [], set()
     nsteps = 0
@@ -545,117 +748,15 @@ def run(chk, model_ok):
         if "harness_err" in r:
             chk.fail("correspondence", "harness-error", r["harness_err"], {"correspondence": "drive/c12.py ops", "input": c})
             continue
-        spec = files[c["file"]]
-        stats["backends"][str(c["backend"])] = stats["backends"].get(str(c["backend"]), 0) + 1
-        var_ids = {vname(v): k for k, v in enumerate(spec["vars"])}
-        byname = {vname(v): v for v in spec["vars"]}
-        # --- laziness and backend selection of the read that produced the objects
-        if r.get("read_log"):
-            chk.fail("property", "read-fetches-array", f"reading an integer file fetched {r['read_log'][:3]}",
-                     {"input": c, "observed": r["read_log"][:5]})
-        if r.get("read_open"):
-            chk.fail("property", "file-left-open-after-read", f"files open after read: {r['read_open']}", {"input": c})
-        for hc, w in zip(c["heap"], r["start"]):
-            if w != "disk:" + CLS[c["backend"]]:
-                chk.fail("property", "read-array-not-lazy-or-wrong-backend",
-                         f"backend {c['backend']}: data of {hc} is {w} after read, expected disk:{CLS[c['backend']]}",
-                         {"input": c, "observed": r["start"]})
-        # --- oracle heap
-        heap = []
-        for hc in c["heap"]:
-            if "missing" in hc:
-                heap.append(OCell(hc["shape"], [0] * (int(np.prod(hc["shape"])) if hc["shape"] else 1), True, True))
-            else:
-                v = byname[hc["var"]]
-                heap.append(OCell(v["shape"], v["flat"]))
-        observed = []
-        bad_case = False
-        for op, st in zip(c["ops"], r["steps"]):
-            nsteps += 1
-            stats["ops"][op[0]] = stats["ops"].get(op[0], 0) + 1
-            exp, info = oracle_step(heap, op)
-            got = st["obs"]
-            events, calls = to_trace(st["log"], var_ids, "c12_no_such_file.nc")
-            is_err = "err" in got
-            if is_err:
-                stats["errors"][got["err"]] = stats["errors"].get(got["err"], 0) + 1
-            # (a) no file left open
-            if st["open"] or st.get("open_in_handler"):
-                bad_case = True
-                chk.fail("property", sig_open(is_err), f"{op} left {st['open'] or st.get('open_in_handler')} open",
-                         {"input": c, "op": op, "observed": st["open"]})
-            nopen = sum(1 for e in events if e[0] == "open")
-            nclose = sum(1 for e in events if e[0] == "close")
-            if nopen != nclose:
-                bad_case = True
-                chk.fail("property", sig_open(is_err),
-                         f"{op}: {nopen} open call(s) but {nclose} close call(s) inside the file array's __getitem__",
-                         {"input": c, "op": op, "expected": "every open followed by its close", "observed": st["log"]})
-            # (b) same result as eager numpy access, and as the eager twin Data
-            ok = True
-            if "err" in exp:
-                ok = is_err and (exp["err"] is None or exp["err"] == got["err"])
-            elif "arr" in exp:
-                ok = "arr" in got and got["arr"]["shape"] == exp["arr"]["shape"] and got["arr"]["flat"] == exp["arr"]["flat"] \
-                    and (op[0] != "arr" or got["arr"]["dtype"] == "int64")
-            else:
-                ok = got == exp
-            if not ok:
-                bad_case = True
-                chk.fail("property", "lazy-differs-from-eager",
-                         f"{op} on backend {c['backend']}: expected {exp}, got {got}",
-                         {"input": c, "op": op, "expected": exp, "observed": got})
-            if "eager" in st:
-                e2 = st["eager"]
-                same = (("err" in e2 and "err" in got and e2["err"] == got["err"]) or
-                        ({k: v for k, v in e2.items() if k != "msg"} == {k: v for k, v in got.items() if k != "msg"}))
-                if not same:
-                    bad_case = True
-                    chk.fail("property", "lazy-differs-from-eager",
-                             f"{op}: file-backed Data gave {got}, the same history on in-memory Data gave {e2}",
-                             {"input": c, "op": op, "expected": e2, "observed": got})
-            # (c) fetch only what is asked
-            gets = [x for x in calls]
-            fetched = sum((x.get("rsize") or 0) for x in gets if x.get("ret"))
-            want = info["want"]
-            if not info["disk"] and op[0] != "eq":
-                if gets:
-                    bad_case = True
-                    chk.fail("property", "in-memory-data-refetched", f"{op}: data already in memory, yet the file was read",
-                             {"input": c, "op": op, "observed": st["log"]})
-            elif isinstance(want, list) and not info["missing"]:
-                size = int(np.prod([len(p) for p in want])) if want else 1
-                poss_ok = len(gets) == 1 and gets[0].get("poss") == want
-                if fetched != size or not poss_ok:
-                    bad_case = True
-                    chk.fail("property", "fetch-not-what-was-asked",
-                             f"{op}: asked for positions {want} ({size} elements); the file array was asked "
-                             f"{[x.get('poss') for x in gets]} and returned {fetched} elements",
-                             {"input": c, "op": op, "expected": want, "observed": st["log"]})
-            elif want == "error" and gets and not info["missing"] and op[0] == "sub":
-                # an index error must not have fetched anything
-                if fetched:
-                    bad_case = True
-                    chk.fail("property", "fetch-not-what-was-asked", f"{op}: raised, but {fetched} elements were fetched first",
-                             {"input": c, "op": op, "observed": st["log"]})
-            observed.append((got, events))
-        if bad_case:
+        res_h = judge_history(chk, c, r, files[c["file"]], stats)
+        nsteps += res_h["nsteps"]
+        if res_h["bad"]:
             explained.add(c["i"])
-        if any(any(e[0] == "stray" for e in ev) for _, ev in observed):
-            chk.fail("correspondence", "trace-shape", "open/close logged outside a file array __getitem__",
-                     {"correspondence": "C12.Run.check_ops", "input": c})
-            continue
-        # --- literal for the model
-        vars_lit = glist(list(enumerate(spec["vars"])),
-                         lambda kv: f"(0%Z, {gz(kv[0])}, {glist(kv[1]['shape'], gnat)}, {glist(kv[1]['flat'], g_oz)})")
-        heap_lit = glist(c["heap"], lambda hc: (f"(OnDisk 1%Z 0%Z {glist(hc['shape'], gz)})" if "missing" in hc else
-                                                 f"(OnDisk 0%Z {gz(var_ids[hc['var']])} {glist(byname[hc['var']]['shape'], gz)})"))
-        obs_lit = glist(observed, lambda oe: f"({g_obs(oe[0])}, {glist(oe[1], g_event)})")
-        lits.append(f"({vars_lit}, {heap_lit}, {gbool(c['backend'] == 'h5netcdf')}, {glist(c['ops'], g_op)}, {obs_lit})")
-        lit_case.append(c)
-        nontriv = any(o[0] in ("sub", "set") and not C03.trivial_idx(o[2]) for o in c["ops"])
-        if nontriv:
-            distinct.add(lib.canon({"f": spec, "h": c["heap"], "o": c["ops"], "b": c["backend"]}))
+        if res_h["lit"] is not None:
+            lits.append(res_h["lit"])
+            lit_case.append(c)
+        if res_h["key"]:
+            distinct.add(res_h["key"])
     if model_ok and lits:
         bad = lib.coq_bad_indices("C12", REQ, "check_ops", lits, chunk=60)
         ncorr += len(lits)
@@ -667,13 +768,8 @@ def run(chk, model_ok):
                      f"model and implementation disagree on a history ({c['backend']}): {c['ops']}",
                      {"correspondence": "C12.Run.check_ops", "input": c, "observed": rows[c["i"]]["steps"]})
 
-    mark("histories_coq")
+    mark("histories_check_and_coq")
     # ======================================================== 2. reads: backends, laziness, open files
-    specs = read_specs(chk)
-    rcases = [{"spec": s} for s in specs]
-    rrows, crashed = run_sharded("read", rcases, scratch, nworkers=16)
-    crash("read", crashed)
-    mark("reads_impl")
     rlits, rlit_case = [], []
     for c, r in zip(rcases, rrows):
         if r is None:
@@ -789,49 +885,8 @@ def run(chk, model_ok):
                      f"model and implementation disagree on which variables read fetches / keeps in memory: {label} ({be}): {fetched[:6]}",
                      {"correspondence": "C12.Run.check_read", "input": label, "observed": fetched[:10]})
 
-    mark("reads_coq")
+    mark("reads_check_and_coq")
     # ======================================================== 3. histories over whole fields
-    fspecs = [s for s in specs if s["kind"] == "example"] + [s for s in specs if s["kind"] == "hand"][:7]
-    fcases = []
-    nper = 6 if T else 2
-    for s in fspecs:
-        for be in BACKENDS:
-            for _ in range(nper):
-                ops = []
-                for _k in range(rng.randint(3, 10)):
-                    r = rng.random()
-                    i = rng.randint(0, 5)
-                    if r < 0.25:
-                        idx = []
-                        for _a in range(3):
-                            q = rng.random()
-                            if q < 0.5:
-                                idx.append(["slice", rng.choice([None, 0, 1, -2]), rng.choice([None, 2, 3, -1]), rng.choice([None, 1, 2, -1])])
-                            elif q < 0.8:
-                                idx.append(["list", [rng.randint(0, 7) for _z in range(rng.randint(1, 3))]])
-                            else:
-                                idx.append(["slice", None, None, None])
-                        ops.append(["sub", i, idx])
-                    elif r < 0.35:
-                        ops.append(["copy", i])
-                    elif r < 0.45:
-                        ops.append(["tomem", i])
-                    elif r < 0.6:
-                        ops.append(["tomem1", i, rng.randint(0, 20)])
-                    elif r < 0.7:
-                        ops.append(["arr", i])
-                    elif r < 0.85:
-                        ops.append(["arr1", i, rng.randint(0, 20)])
-                    elif r < 0.92:
-                        ops.append(["str", i])
-                    else:
-                        ops.append(["eq", i, rng.randint(0, 5)])
-                ops.append(["arr", 0])
-                be2 = rng.choice(BACKENDS)
-                fcases.append({"spec": s, "backend": be, "backend2": be2, "ops": ops})
-    frows, crashed = run_sharded("fieldops", fcases, scratch, nworkers=16)
-    crash("fieldops", crashed)
-    mark("field_histories_impl")
     nfsteps = 0
     for c, r in zip(fcases, frows):
         if r is None:
@@ -852,7 +907,12 @@ def run(chk, model_ok):
                          f"{label} ({c['backend']}): {op} left {st['open']} open ({st['unclosed']} unclosed)",
                          {"input": {"spec": label, "backend": c["backend"], "ops": c["ops"]}, "op": op})
         for x in r["cross"]:
-            if x != [True, True]:
+            if isinstance(x, list) and len(x) == 3 and x[2] == "same-fingerprint":
+                chk.fail("property", "equality-changed-by-bringing-into-memory",
+                         f"{label} ({c['backend']}): after the same history a field and its in-memory twin hold identical "
+                         f"values, masks and kinds of data type, yet equals() gives {x[:2]}",
+                         {"input": {"spec": label, "backend": c["backend"], "ops": c["ops"]}})
+            elif x != [True, True]:
                 chk.fail("property", "lazy-differs-from-eager",
                          f"{label} ({c['backend']}): a field and its in-memory twin are not equal after the same history: {x}",
                          {"input": {"spec": label, "backend": c["backend"], "ops": c["ops"]}})
@@ -889,16 +949,38 @@ def run(chk, model_ok):
 
 
 def replay(chk, path):
+    """Re-run the histories stored in a replay file; exit status 1 while any still fails."""
     d = json.load(open(path))
     bad = 0
     for x in d.get("cases", []):
         c = x.get("input")
-        if not isinstance(c, dict) or "ops" not in c or "heap" not in c:
-            print("not replayable as a history:", str(c)[:200])
+        if not isinstance(c, dict) or "ops" not in c or "heap" not in c or "vars" not in c:
+            print("not a replayable history (dataset-level finding):", str(c)[:300])
             bad += 1
             continue
-        # the file contents are not stored in the replay: re-derive from the seed is not possible here,
-        # so replay corpus-style cases only (those carry their variables)
-        print("history", json.dumps(c)[:400])
-        bad += 1
+        spec = {"vars": c["vars"]}
+        case = {"i": 0, "file": 0, "backend": c.get("backend"), "heap": c["heap"], "ops": c["ops"]}
+        rc, out, err = lib.run_worker("drive/c12.py", {"mode": "ops", "scratch": chk.scratch, "files": {"0": spec},
+                                                        "cases": [case]})
+        rows = [r for r in out if isinstance(r, dict) and "i" in r]
+        if not rows or "harness_err" in rows[0]:
+            print("worker failed:", rc, err[-300:], rows[:1])
+            bad += 1
+            continue
+        n0 = len(chk.failures)
+        res = judge_history(chk, case, rows[0], spec, {"ops": {}, "errors": {}, "backends": {}})
+        fails = chk.failures[n0:]
+        if res["lit"] is not None:
+            try:
+                idx = lib.coq_bad_indices("C12", REQ, "check_ops", [res["lit"]], chunk=10)
+            except lib.CoqEvalError as e:
+                idx = [0]
+                print(str(e)[-300:])
+            if idx:
+                print("model and implementation disagree on", c["ops"])
+                bad += 1
+        for f in fails:
+            print(f"({f.kind}) {f.signature}: {f.what}"[:400])
+        bad += len(fails)
+        print(json.dumps(c["ops"])[:300], "->", "still failing" if fails else "passes")
     return 1 if bad else 0
